@@ -297,6 +297,16 @@ class BehavioralRTLIRToVVisitorL1( bir.BehavioralRTLIRNodeVisitor ):
   # visit_ZeroExt
   #-----------------------------------------------------------------------
 
+  # An extension/truncation to the operand's own bitwidth emits the operand
+  # unchanged. The enclosing operator does not know that the text it gets
+  # back is a compound expression, so it has to be bracketed here:
+  # zext( s.a | s.b, 2 ) - s.c must not become "a | b - c".
+
+  def _wrap_compound( s, node, value ):
+    if isinstance( node, (bir.IfExp, bir.UnaryOp, bir.BinOp, bir.Compare) ):
+      return f"( {value} )"
+    return value
+
   def visit_ZeroExt( s, node ):
     node.value._top_expr = True
 
@@ -305,7 +315,7 @@ class BehavioralRTLIRToVVisitorL1( bir.BehavioralRTLIRNodeVisitor ):
     current_nbits = int(node.value.Type.get_dtype().get_length())
     padded_nbits = target_nbits - current_nbits
     if padded_nbits == 0:
-      return value
+      return s._wrap_compound( node.value, value )
     else:
       return f"{{ {{ {padded_nbits} {{ 1'b0 }} }}, {value} }}"
 
@@ -326,7 +336,7 @@ class BehavioralRTLIRToVVisitorL1( bir.BehavioralRTLIRNodeVisitor ):
     padded_nbits = target_nbits - current_nbits
 
     if padded_nbits == 0:
-      return value
+      return s._wrap_compound( node.value, value )
 
     template = "{{ {{ {padded_nbits} {{ {value}[{last_bit}] }} }}, {value} }}"
     one_bit_template = "{{ {{ {padded_nbits} {{ {_value} }} }}, {value} }}"
@@ -394,7 +404,7 @@ class BehavioralRTLIRToVVisitorL1( bir.BehavioralRTLIRNodeVisitor ):
     if isinstance(dtype, rdt.Vector) and dtype.get_length() > nbits:
       return f"{nbits}'({value})"
     else:
-      return value
+      return s._wrap_compound( node.value, value )
 
   #-----------------------------------------------------------------------
   # visit_Reduce
